@@ -144,6 +144,15 @@ func delays(q, t int) func(*Config, bool) {
 
 func registerMore2() {
 	addProp(&PropSpec{
+		ID: "C20",
+		Explanation: "The real server.Loop, with real jrpc2 servers, is run as engine threads over a scripted in-memory Accepter: 0..2 connections; per connection the service's Assigner symbolically fails; the accepter then fails with a closing error, fails with another error, or blocks until the context ends; connections end by client close or context cancellation; scheduling decisions explored up to the delay bound. " +
+			"Asserted: one newService per connection; Loop does not return while a started server runs; exactly one Finish per started server and none for a failed Assigner, whose connection must be closed; Loop's return value.",
+		Bounds:      []string{"<= 2 connections", "delay bound 2, context switches at blocking operations", "no RPC traffic on the connections (server behaviour is C01-C10)"},
+		Outside:     []string{"NetAccepter over a real net.Listener", "handler durations (no handlers run here)"},
+		Assumptions: append([]string{threadAssumption}, commonAssumptions...),
+		Harnesses:   []HarnessSpec{{Dir: "server", Name: "Harness_C20_loop", Reach: []string{"waits-for-servers", "finished", "assigner-failed", "accept-error", "done"}}},
+	})
+	addProp(&PropSpec{
 		ID: "C11",
 		Explanation: "1..2 (thorough 3) records of 0..3 symbolic bytes each, plus optionally one record longer than the bufio buffer, are written by the real Send of the Split and Header framings (StrictHeader with and without content type, and the opthdr wrapper used by Header/LSP); the resulting byte stream is served by a reader with a symbolic chunking policy " +
 			"(all at once; uniform 1-, 2-, 3-byte reads; one cut at every position; final bytes with or without io.EOF) to the real bufio.Reader (executed from source, 16-byte buffer so that buffer-full continuation and refills occur) and the real Recv. Received records must equal the sent ones byte for byte and in order, then io.EOF, then errors. Send must refuse a record containing the split byte without writing.",
